@@ -238,13 +238,41 @@ def status_bits_of(v):
     return res
 
 
+def implied_status_bits(e):
+    """STATUS bit numbers that a true `cond` event proves to be 1: a truth test of one single bit, or `(s & m) == c` for the bits of c"""
+    if e.kind != "cond" or e.data[0] is not True:
+        return set()
+    v = e.data[1]
+    if isinstance(v, tuple):
+        if len(v) != 2 or not isinstance(e.node, ast.Compare) or not isinstance(e.node.ops[0], ast.Eq):
+            return set()
+        for x, y in ((v[0], v[1]), (v[1], v[0])):
+            c = const_of(norm(y))
+            b = status_bits_of(x) if isinstance(norm(x), BitV) else None
+            if isinstance(c, int) and not isinstance(c, bool) and b:
+                return {src[1] for i, src in b.items() if src is not None and not src[2] and (c >> i) & 1}
+        return set()
+    b = status_bits_of(v) if isinstance(norm(v), BitV) else None
+    if b and len(b) == 1:
+        src = list(b.values())[0]
+        if src is not None and not src[2]:
+            return {src[1]}
+    return set()
+
+
 def wait_loops(radio, agg, f, outs, rule="R02.1"):
     """polling loops: exit mask == TX_DS|MAX_RT of the freshest STATUS, body refreshes STATUS"""
-    wt = while_tests(f)
+    wts = {}
     n = 0
     for out in outs:
         for ev in out.trace:
-            if ev.kind != "cond" or id(ev.node) not in wt or ev.func is not f:
+            if ev.kind != "cond" or ev.func is None:
+                continue
+            # the loop may live in send()/resend() itself or in a helper they call (inlined by the interpreter)
+            if ev.func.qualname not in wts:
+                wts[ev.func.qualname] = while_tests(ev.func)
+            wt = wts[ev.func.qualname]
+            if id(ev.node) not in wt:
                 continue
             loop = wt[id(ev.node)]
             bits = status_bits_of(ev.data[1])
@@ -364,14 +392,13 @@ def send_outcome(radio, agg, lite=False):
                     if rds:
                         agg.add("R02.3", f, "ACK payload is fetched only when send_only is off", not so, "%s: R_RX_PAYLOAD issued with send_only" % label, rds[0].node)
                         # path condition must contain RX_DR and TX_DS of the latest status
-                        okc = False
+                        # true tests of STATUS bits before the fetch, in send() or in a helper it calls; together they must cover RX_DR and
+                        # TX_DS (a refined boolean `result` stands for TX_DS: R02.2)
+                        seen_bits = set()
                         for e in out.trace:
-                            if e.kind == "cond" and e.func is f and e.data[0] is True:
-                                vals = e.data[1] if isinstance(e.data[1], tuple) else (e.data[1],)
-                                for x in vals:
-                                    b = status_bits_of(x) if isinstance(norm(x), BitV) else None
-                                    if b and set(b) == {5, 6} and all(t is not None for t in b.values()):
-                                        okc = True
+                            if e.seq < rds[0].seq:
+                                seen_bits |= implied_status_bits(e)
+                        okc = {5, 6} <= seen_bits
                         agg.add("R02.3", f, "ACK payload fetch is guarded by RX_DR and TX_DS", okc, "%s: no guard on STATUS bits 6 and 5 before read()" % label, rds[0].node)
                     elif not calls:
                         okv = False
@@ -383,7 +410,7 @@ def send_outcome(radio, agg, lite=False):
                         elif isinstance(v, Const) and v.v is None:
                             okv = _ack_guard(out, f) and not so  # read() found nothing to return
                         agg.add("R02.2", f, "result is TX_DS (bit 5) of the STATUS that ended the wait", okv, "%s: returns %r" % (label, v))
-                agg.add("R02.5", f, "the force-retry loop terminates within force_retry iterations", not cut or all(c.func is not f or not _is_retry_loop(c.node) for c in cut),
+                agg.add("R02.5", f, "the force-retry loop terminates within force_retry iterations", not cut or all(not _is_retry_loop(c.node) for c in cut),
                         "%s: retry loop still running after %d iterations" % (label, 3))
     finally:
         radio.model.opaque.pop(fr_.qualname, None)
@@ -397,7 +424,7 @@ def send_with_real_resend(radio, agg, lite=False):
     for so in (False, True):
         n += 1
         st = set_status(radio, radio.fresh({contract.DYNPD: 0x3F, contract.FEATURE: 0x07, contract.EN_AA: 0x3F}), 0x0E)
-        outs = radio.run(f, [param_buf(length=5), False, 1, so], st, limits=Limits(max_paths=200000, loop_unroll=1))
+        outs = radio.run(f, [param_buf(length=5), False, 1, so], st, limits=Limits(max_paths=30000, loop_unroll=1))
         freshness(radio, agg, f, outs, need_load=True)
         for out in outs:
             if out.kind != "return" or not tx_loads(out):
@@ -412,7 +439,7 @@ def _ack_guard(out, f):
     """the path passed a true test on STATUS bits 6 and 5 inside f"""
     need = set()
     for e in out.trace:
-        if e.kind == "cond" and e.func is f and e.data[0] is True:
+        if e.kind == "cond" and e.data[0] is True:
             vals = e.data[1] if isinstance(e.data[1], tuple) else (e.data[1],)
             for x in vals:
                 b = status_bits_of(x) if isinstance(norm(x), BitV) else None
@@ -425,6 +452,25 @@ def _ack_guard(out, f):
 
 def _is_retry_loop(node):
     return isinstance(node, ast.While) and any(isinstance(x, ast.Name) and x.id == "force_retry" for x in ast.walk(node.test))
+
+
+def bind_args(f, args, kw):
+    """positional + keyword arguments of a call bound to f's parameters (self excluded), constant defaults filled in"""
+    import ast as _ast
+    names = [a.arg for a in f.node.args.args][1:]
+    defaults = f.node.args.defaults
+    out = list(args)
+    for i in range(len(out), len(names)):
+        nm = names[i]
+        if kw and nm in kw:
+            out.append(kw[nm])
+            continue
+        di = i + 1 - (len(f.node.args.args) - len(defaults))
+        if 0 <= di < len(defaults) and isinstance(defaults[di], _ast.Constant):
+            out.append(Const(defaults[di].value))
+        else:
+            break
+    return out
 
 
 def send_list(radio, agg, rule="R01.7"):
@@ -457,8 +503,8 @@ def send_list(radio, agg, rule="R01.7"):
                 if not ok:
                     continue
                 for k, e in enumerate(recs):
-                    a = e.data[1]
-                    oka = isinstance(a[0], Bytes) and a[0].origin == ("param", "b%d" % k) and value_matches(a[1], True) and value_matches(a[2], 2) and value_matches(a[3], True)
+                    a = bind_args(f, e.data[1], e.data[2])
+                    oka = len(a) == 4 and isinstance(a[0], Bytes) and a[0].origin == ("param", "b%d" % k) and value_matches(a[1], True) and value_matches(a[2], 2) and value_matches(a[3], True)
                     agg.add(rule, f, "elements are sent in order with the caller's options", oka, "call %d: args %r" % (k, a))
                 v = out.value
                 items = out.state.heap[v.ident].items if isinstance(v, Ref) and v.kind == "list" else None
@@ -510,14 +556,8 @@ def resend_rules(radio, agg, lite=False):
                 okg = False
                 need = set()
                 for e in out.trace:
-                    if e.kind == "cond" and e.func is f and e.data[0] is True:
-                        vals = e.data[1] if isinstance(e.data[1], tuple) else (e.data[1],)
-                        for x in vals:
-                            b = status_bits_of(x) if isinstance(norm(x), BitV) else None
-                            if b:
-                                for i, src in b.items():
-                                    if src is not None:
-                                        need.add(src[1])
+                    if e.seq < rds[0].seq:
+                        need |= implied_status_bits(e)
                 agg.add("R02.3", f, "ACK payload fetch is guarded by RX_DR and TX_DS", {5, 6} <= need, "%s: guards seen on STATUS bits %r" % (label, sorted(need)), rds[0].node)
             else:
                 v = norm(out.value)
